@@ -188,7 +188,16 @@ pub fn run_obs()
 		let bytes: Vec<u8> = (0..line.len() / 2)
 			.map(|i| u8::from_str_radix(&line[2 * i..2 * i + 2], 16).unwrap())
 			.collect();
-		let o = observe(&bytes);
+		let o = match std::panic::catch_unwind(|| observe(&bytes))
+		{
+			Ok(o) => o,
+			Err(_) =>
+			{
+				println!("REAL PANIC");
+				println!("REF skipped");
+				continue;
+			}
+		};
 		let mut s = format!("REAL {}", o.kinds.len());
 		for k in 0..o.kinds.len()
 		{
